@@ -714,7 +714,7 @@ int32 dtlsChkReplayWindow(ssl_t *ssl, unsigned char *seq64)
     {
         return 0;                   /* too old or wrapped */
     }
-    if (ssl->dtlsBitmap & ((int32) 1 << diff))
+    if (ssl->dtlsBitmap & ((unsigned long) 1 << diff))
     {
         return 0;                                   /* already seen */
     }
